@@ -54,6 +54,8 @@ let bspec : z list ref = ref []
 let spans : z list ref = ref []
 
 let khash () = if !kind = 5 then tok_hash_weak else tok_hash
+let alloc_limit = ref 0
+let alloc_ok (n : nat) : bool = !alloc_limit = 0 || int_of_nat n < !alloc_limit
 
 let cop_of op a b : z cop option =
   let za = z_of_i64 a and zb = z_of_i64 b in
@@ -126,11 +128,12 @@ let () =
             kind := Int64.to_int a; typ := Int64.to_int b;
             vecs := vec_empty; vspec := []; seqs := seq_empty; sspec := (z0, []);
             hms := hm_empty; hspec := []; dls := dl_empty; lspec := []; sbs := sb_empty; bspec := [];
-            spans := List.init (Int64.to_int c) (fun i -> z_of_int (i + 1));
+            spans := (if !kind = 7 then List.init (Int64.to_int c) (fun i -> z_of_int (i + 1)) else []);
+            alloc_limit := (if !kind = 9 || !kind = 10 then Int64.to_int c else 0);
             Some (Printf.sprintf "H %d %d" !kind !typ)
           end else
           match !kind with
-          | 1 ->
+          | 1 | 10 ->
             (match cop_of op a b with
              | None -> Some "?"
              | Some o ->
@@ -260,6 +263,48 @@ let () =
                    | Ok (l, r) -> bspec := l; rs r ^ bspec_line ()
                    | Trap t -> "TRAP " ^ trap_name t) in
                Some (m ^ " || " ^ s))
+          | 9 ->
+            let ia = Int64.to_int a and ib = Int64.to_int b and ic = Int64.to_int c in
+            let pre = ref "" in
+            let o = (match op with
+                | 1 -> let n = emod ia 41 in pre := Printf.sprintf "1,%d" n; Some (BWrite (sbbytes ia n))
+                | 2 -> pre := "1"; Some (BWriteByte (z_of_int (ia land 255), nat_of_int ib))
+                | 3 ->
+                  (match sb_prepare_a alloc_ok (nat_of_int ia) !sbs with
+                   | Ok (_, spo) ->
+                     let sp = (match spo with Some n -> int_of_nat n | None -> 0) in
+                     let k = min ib sp in
+                     pre := Printf.sprintf "%d,%d" sp k;
+                     Some (BPwc (nat_of_int ia, sbbytes ic k))
+                   | Trap _ -> Some (BPwc (nat_of_int ia, [])))
+                | 4 -> pre := "-"; Some (BRollback (nat_of_int ia))
+                | 5 -> pre := "1"; Some (BResize (nat_of_int ia))
+                | 6 -> pre := "-"; Some BClear
+                | 7 -> Some BPromote
+                | 8 ->
+                  (match sb_prepare_a alloc_ok (nat_of_int ia) !sbs with
+                   | Ok (_, spo) -> pre := (match spo with Some n -> sn n | None -> "0") | Trap _ -> ());
+                  if ib >= 1 then Some (BCommitOver (nat_of_int ia, nat_of_int (ib - 1))) else None
+                | 9 ->
+                  (match sb_prepare_a alloc_ok (nat_of_int ia) !sbs with
+                   | Ok (_, spo) -> pre := (match spo with Some n -> sn n | None -> "0") | Trap _ -> ());
+                  Some (BPrepare (nat_of_int ia))
+                | _ -> None) in
+            (match o with
+             | None -> Some "?"
+             | Some o ->
+               let rs r = (match r, o with
+                   | BBytes l, _ -> Printf.sprintf "%d:%s%s" (List.length l) (hexs l) (if l <> [] then ":0" else "")
+                   | BOkN (false, _), _ -> "0,0"
+                   | BBool false, (BWriteByte _ | BResize _) -> "0"
+                   | _ -> !pre) in
+               let m = (match sb_step_a alloc_ok o !sbs with
+                   | Ok (v, r) -> sbs := v; rs r ^ sb_line ()
+                   | Trap t -> "TRAP " ^ trap_name t) in
+               let s = (match by_step o !bspec with
+                   | Ok (l, r) -> bspec := l; rs r ^ bspec_line ()
+                   | Trap t -> "TRAP " ^ trap_name t) in
+               ignore s; Some m)
           | 7 ->
             (match op with
              | 1 -> (match span_at (nat_of_i64 a) !spans with
